@@ -11,7 +11,7 @@ deviations from the default plus the full reversals and their combinations;
 oracle: identical (status, accepted language) for every schedule."""
 import itertools
 
-from .. import dsl, semantics, present, impl_pv
+from .. import dsl, semantics, present, impl_pv, fragment
 from ..findings import input_key
 from . import pvcommon
 
@@ -211,6 +211,9 @@ def build(tier, ctx):
     tasks = []
     nA = 5 if tier == "quick" else 6
     defsA = pvcommon.scope_defs(ctx["repo"], nA)
+    rep = [("FR", d) for d in fragment.repeated_event_family()]
+    rep += fragment.corpus_multiple_same(ctx["repo"])
+    defsA += rep
     for i in range(0, len(defsA), 4):
         tasks.append({"kind": "A", "tier": tier,
                       "defs": [(nm, dsl.to_list(d))
@@ -219,11 +222,13 @@ def build(tier, ctx):
         nB, nsmall, seeds = 4, 4, range(4)
     else:
         nB, nsmall, seeds = 6, 5, range(16)
-    for nm, d in pvcommon.scope_defs(ctx["repo"], nB):
+    for nm, d in pvcommon.scope_defs(ctx["repo"], nB) + rep:
         ne = len(dsl.event_names(d))
         small = False
         if nm == "F" and ne <= nsmall:
             small = "perm" if ne <= nsmall - 1 else True
+        if nm == "FR":
+            small = True
         for s in seeds:
             tasks.append({"kind": "B", "name": nm, "defn": dsl.to_list(d),
                           "seed": s, "small": small})
